@@ -72,6 +72,18 @@ def schedules(chk, q):
         sc["origin"] = {"module": "Tunnel_Gen", "config": "Gen_small.cfg", "path": pi}
         out.append(sc)
         infos.append(info)
+    # the bulk-outage class (queue full -> drop must stay invisible): a few schedules with several MiB each
+    # way, the carrier lost mid-transfer and no carrier for 2-3 s
+    brng = random.Random("bulk/%d" % chk.seed)
+    cands = [s for s in out if any(len(sp["carriers"]) >= 2 for sp in s["sessions"])]
+    nb = 0
+    for i, s in enumerate(cands[: (6 if q else 40)]):
+        b = corerig.bulk_outage(s, brng, i % 2)
+        b["origin"] = dict(s.get("origin", {}), bulk_outage=True)
+        out.append(b)
+        infos.append({"faults": 2, "kinds": {"bulk-outage"}, "carriers": sum(len(x["carriers"]) for x in b["sessions"])})
+        nb += 1
+    chk.cov["bulk_outage_schedules"] = nb
     chk.cov["small_config_paths"] = len(paths)
     chk.cov["small_config_distinct_schedules"] = len(seen)
     return out, infos
@@ -90,12 +102,26 @@ def run(chk, args):
     mc_out = []
     th = threading.Thread(target=model_check, args=(chk, mc_cfgs, mc_out))
     th.start()
+    # quick: two system-rig scenarios (real client library over real WebRTC) next to everything else: a
+    # proxy that goes silent WITHOUT closing anything (only the client's staleness detection gets the
+    # session out of it) and the D15 regression
+    sys_out = {}
+    sth = None
+    if q:
+        def sysq():
+            try:
+                from checks import c01_sys
+                c01_sys.run_system_quick(chk, sys_out)
+            except Exception as e:
+                sys_out["error"] = e
+        sth = threading.Thread(target=sysq)
+        sth.start()
     # 2. fault schedules -> core rig
     scs, infos = schedules(chk, q)
     kinds = set().union(*[i["kinds"] for i in infos])
     chk.note("%d fault schedules from Tunnel_Gen (%d planned faults, %d carriers; kinds %s)" % (
         len(scs), sum(i["faults"] for i in infos), sum(i["carriers"] for i in infos), sorted(kinds)))
-    need = {"answerlost", "freeze", "cut-before-token", "cut-bnd", "cut-body", "cut-pfx", "halfopen", "noproxy"}
+    need = {"answerlost", "freeze", "cut-before-token", "cut-bnd", "cut-body", "cut-pfx", "halfopen", "noproxy", "bulk-outage"}
     if not need <= kinds:
         chk.fail("vacuous: fault kinds never generated: %s" % sorted(need - kinds))
     results, summary, out, races = corerig.run_rig(rigbin, scs, par=64, bound_ms=BOUND_MS, timeout=1500)
@@ -125,6 +151,10 @@ def run(chk, args):
     # 3. thorough: race build of the core rig (monitor), system rig
     if not q:
         thorough_extra(chk, scs)
+    if sth is not None:
+        sth.join()
+        if "error" in sys_out:
+            raise sys_out["error"]
     th.join()
     for cfg, r, expect in mc_out:
         if cfg == "error":
